@@ -3,6 +3,7 @@
 package mos
 
 import (
+	"fmt"
 	"io/fs"
 	"os"
 	"syscall"
@@ -111,3 +112,75 @@ func DirFS(dir string) fs.FS {
 func IsNotExist(err error) bool { return os.IsNotExist(err) }
 func IsExist(err error) bool    { return os.IsExist(err) }
 func Getwd() (string, error)    { return os.Getwd() }
+
+// plain pass-throughs (no scheduling point, no fault): whatever else of package os a tree may use
+type DirEntry = os.DirEntry
+type Signal = os.Signal
+type Process = os.Process
+
+const (
+	O_RDONLY      = os.O_RDONLY
+	O_WRONLY      = os.O_WRONLY
+	O_RDWR        = os.O_RDWR
+	O_APPEND      = os.O_APPEND
+	O_CREATE      = os.O_CREATE
+	O_EXCL        = os.O_EXCL
+	O_TRUNC       = os.O_TRUNC
+	ModePerm      = os.ModePerm
+	ModeDir       = os.ModeDir
+	PathSeparator = os.PathSeparator
+	DevNull       = os.DevNull
+)
+
+var (
+	ErrPermission = os.ErrPermission
+	ErrInvalid    = os.ErrInvalid
+	ErrClosed     = os.ErrClosed
+	Args          = os.Args
+)
+
+func Open(name string) (*os.File, error) {
+	if err := step("open", name); err != nil {
+		return nil, err
+	}
+	return os.Open(name)
+}
+func ReadFile(name string) ([]byte, error) {
+	if err := step("readfile", name); err != nil {
+		return nil, err
+	}
+	return os.ReadFile(name)
+}
+func Rename(a, b string) error {
+	if err := step("rename", a); err != nil {
+		return err
+	}
+	return os.Rename(a, b)
+}
+func Chmod(name string, m os.FileMode) error {
+	if err := step("chmod", name); err != nil {
+		return err
+	}
+	return os.Chmod(name, m)
+}
+func Symlink(a, b string) error {
+	if err := step("symlink", b); err != nil {
+		return err
+	}
+	return os.Symlink(a, b)
+}
+func MkdirTemp(dir, pattern string) (string, error) {
+	if err := step("mkdirtemp", dir); err != nil {
+		return "", err
+	}
+	return os.MkdirTemp(dir, pattern)
+}
+func Readlink(name string) (string, error) { return os.Readlink(name) }
+func Getenv(k string) string               { return os.Getenv(k) }
+func LookupEnv(k string) (string, bool)    { return os.LookupEnv(k) }
+func Chdir(d string) error                 { return os.Chdir(d) }
+func TempDir() string                      { return os.TempDir() }
+func SameFile(a, b os.FileInfo) bool       { return os.SameFile(a, b) }
+func IsPermission(err error) bool          { return os.IsPermission(err) }
+func UserHomeDir() (string, error)         { return os.UserHomeDir() }
+func Exit(code int)                        { panic(fmt.Sprintf("os.Exit(%d) called by library code", code)) }
